@@ -2,7 +2,7 @@
 //! this one call and nothing else, on a big-stack thread, with a counting hook.
 
 use crate::gen::{Entry, Pool};
-use crate::proc::{self, Exit, SharedFlag};
+use crate::proc::{self, Exit};
 use crate::types::*;
 use std::collections::BTreeMap;
 use std::time::Duration;
@@ -96,18 +96,18 @@ pub fn parse_iso(bytes: &[u8], exit: Exit) -> Iso {
     }
 }
 
-/// Evaluate the given calls in isolation, in parallel. Result order = input order.
+/// Evaluate the given calls in isolation (one fresh process each), in parallel. Result order = input order.
 pub fn isolated_many(calls: &[Call], workers: usize, timeout: Duration) -> Vec<Iso> {
-    let stop = SharedFlag::new();
     let mut res: Vec<Option<Iso>> = vec![None; calls.len()];
-    proc::par_map(
+    let cap = isolated_tick_cap();
+    proc::zmap(
         calls.len(),
         workers,
         timeout,
         None,
-        &stop,
-        |i| isolated_child(&calls[i], isolated_tick_cap()),
-        |i, bytes, exit| {
+        &mut || true,
+        &mut |i| Some(crate::wire::encode_iso(&calls[i], cap)),
+        &mut |i, bytes, exit| {
             res[i] = Some(parse_iso(&bytes, exit));
         },
     );
